@@ -219,12 +219,30 @@ func (eng *Engine) displayName(fn *ssa.Function) string {
 }
 
 func (eng *Engine) lookupFunc(key string) *ssa.Function {
+	return eng.lookupFuncIn(eng.prog, eng.spkgs, key)
+}
+
+// refGlobal: package-level variable of the reference package that refKey (pkg.Func) lives in.
+func (eng *Engine) refGlobal(refKey, name string) *ssa.Global {
+	i := strings.Index(refKey, ".")
+	if i < 0 || eng.refSSA == nil {
+		return nil
+	}
+	sp := eng.refSSA[refKey[:i]]
+	if sp == nil {
+		return nil
+	}
+	g, _ := sp.Members[name].(*ssa.Global)
+	return g
+}
+
+func (eng *Engine) lookupFuncIn(prog *ssa.Program, pkgs map[string]*ssa.Package, key string) *ssa.Function {
 	// key: pkg.Name or pkg.(*T).Name
 	i := strings.Index(key, ".")
 	if i < 0 {
 		return nil
 	}
-	sp := eng.spkgs[key[:i]]
+	sp := pkgs[key[:i]]
 	if sp == nil {
 		return nil
 	}
@@ -242,10 +260,10 @@ func (eng *Engine) lookupFunc(key string) *ssa.Function {
 		if ptr {
 			T = types.NewPointer(T)
 		}
-		ms := eng.prog.MethodSets.MethodSet(T)
+		ms := prog.MethodSets.MethodSet(T)
 		for k := 0; k < ms.Len(); k++ {
 			if ms.At(k).Obj().Name() == meth {
-				return eng.prog.MethodValue(ms.At(k))
+				return prog.MethodValue(ms.At(k))
 			}
 		}
 		return nil
@@ -324,11 +342,22 @@ func (ex *Exec) sharedTable(st *State, g *ssa.Global, t types.Type) Value {
 		return &ArrayV{Arr: Var("tbl.shared."+name, so), Len: u.Len(), ElemT: u.Elem()}
 	case *types.Slice:
 		es := sortOf(u.Elem())
-		if es == nil {
-			return nil
-		}
 		n, ok := ex.sharedLens[name]
 		if !ok {
+			return nil
+		}
+		if stt, isStruct := u.Elem().Underlying().(*types.Struct); isStruct && es == nil {
+			ex.sharedRegMu.Lock()
+			r := ex.sharedRegs[name]
+			if r == nil {
+				r = &Region{ID: -100 - len(ex.sharedRegs), Name: "tbl." + name, Elem: BV(8), Kind: "string"}
+				ex.sharedRegs[name] = r
+			}
+			ex.sharedRegMu.Unlock()
+			st.store[r] = &TableV{Name: name, T: stt, N: n}
+			return &SliceV{Reg: r, Off: I64(0), Len: I64(n), Cap: I64(n), ElemT: u.Elem()}
+		}
+		if es == nil {
 			return nil
 		}
 		ex.sharedRegMu.Lock()
